@@ -575,7 +575,7 @@ func (f *frame) loopModSet(h *ssa.BasicBlock, be map[[2]int]bool) (map[string]*m
 	cellField := func(p ssa.Value, field int, depth int) {
 		pt, ok := p.Type().Underlying().(*types.Pointer)
 		if !ok {
-			all = true
+			all = dbgAll(1)
 			return
 		}
 		if at, ok := pt.Elem().Underlying().(*types.Array); ok {
@@ -653,6 +653,52 @@ func (f *frame) loopModSet(h *ssa.BasicBlock, be map[[2]int]bool) (map[string]*m
 		}
 		cellField(v, field, depth)
 	}
+	// closureOf resolves a called value to the closure body it must denote: a
+	// MakeClosure, the content of a local cell that is stored exactly once with a
+	// MakeClosure (go/ssa's form for `mark := func…`), or a function-typed
+	// parameter of an inlined callee whose argument resolved that way.
+	penv := map[*ssa.Parameter]*ssa.Function{}
+	fvenv := map[*ssa.FreeVar]ssa.Value{}
+	var closureOf func(v ssa.Value) *ssa.Function
+	closureOf = func(v ssa.Value) *ssa.Function {
+		switch x := v.(type) {
+		case *ssa.MakeClosure:
+			fn, _ := x.Fn.(*ssa.Function)
+			if fn != nil {
+				for i, b := range x.Bindings {
+					if i < len(fn.FreeVars) {
+						fvenv[fn.FreeVars[i]] = b
+					}
+				}
+			}
+			return fn
+		case *ssa.Function:
+			return x
+		case *ssa.Parameter:
+			return penv[x]
+		case *ssa.UnOp:
+			cell := x.X
+			if fv, ok := cell.(*ssa.FreeVar); ok {
+				cell = fvenv[fv] // the captured variable's cell in the enclosing function
+			}
+			a, ok := cell.(*ssa.Alloc)
+			if !ok || x.Op != token.MUL || a.Referrers() == nil {
+				return nil
+			}
+			var fn *ssa.Function
+			n := 0
+			for _, r := range *a.Referrers() {
+				if st, ok := r.(*ssa.Store); ok && st.Addr == a {
+					n++
+					fn = closureOf(st.Val)
+				}
+			}
+			if n == 1 {
+				return fn
+			}
+		}
+		return nil
+	}
 	var scan func(fn *ssa.Function, blocks map[*ssa.BasicBlock]bool, depth int)
 	scan = func(fn *ssa.Function, blocks map[*ssa.BasicBlock]bool, depth int) {
 		for _, b := range fn.Blocks {
@@ -686,6 +732,9 @@ func (f *frame) loopModSet(h *ssa.BasicBlock, be map[[2]int]bool) (map[string]*m
 						continue
 					}
 					callee := v.Call.StaticCallee()
+					if mc, ok := v.Call.Value.(*ssa.MakeClosure); ok {
+						closureOf(mc) // registers the bindings of its free variables
+					}
 					if callee == nil {
 						if pv, ok := f.vals[v.Call.Value]; ok && depth == 0 {
 							if pv.uf != "" {
@@ -700,8 +749,16 @@ func (f *frame) loopModSet(h *ssa.BasicBlock, be map[[2]int]bool) (map[string]*m
 								continue
 							}
 						}
-						// a closure held in a local cell: resolved at execution time; be conservative
-						all = true
+						// a closure held in a local cell or passed down to an inlined helper:
+						// its body is what runs; anything else is conservative
+						if cf := closureOf(v.Call.Value); cf != nil && cf.Blocks != nil && depth < 4 {
+							scan(cf, nil, depth+1)
+							continue
+						}
+						if os.Getenv("GOVC_DEBUG") != "" {
+							fmt.Fprintf(os.Stderr, "loopmod: unresolved call %s in %s (value %T %s)\n", v, fn.Name(), v.Call.Value, v.Call.Value)
+						}
+						all = dbgAll(2)
 						continue
 					}
 					if rc := f.rootCtr(); rc != nil {
@@ -733,13 +790,13 @@ func (f *frame) loopModSet(h *ssa.BasicBlock, be map[[2]int]bool) (map[string]*m
 							continue
 						}
 						if !c.HasAssigns {
-							all = true
+							all = dbgAll(3)
 							continue
 						}
 						for _, a := range c.Assigns {
 							switch {
 							case a == "*":
-								all = true
+								all = dbgAll(4)
 							case strings.HasPrefix(a, "H_") || strings.HasPrefix(a, "HA_"):
 								ca, ok := e.canonHeap(a)
 								if !ok {
@@ -778,19 +835,26 @@ func (f *frame) loopModSet(h *ssa.BasicBlock, be map[[2]int]bool) (map[string]*m
 									cellField(arg, fi, depth)
 								}
 								if !found {
-									all = true
+									all = dbgAll(5)
 								}
 							}
 						}
 						continue
 					}
 					if f.wouldInline(callee) && depth < 3 {
+						for pi, p := range callee.Params {
+							if _, isFn := p.Type().Underlying().(*types.Signature); isFn && pi < len(v.Call.Args) {
+								if cf := closureOf(v.Call.Args[pi]); cf != nil {
+									penv[p] = cf
+								}
+							}
+						}
 						scan(callee, nil, depth+1)
 						continue
 					}
-					all = true
+					all = dbgAll(6)
 				case *ssa.Go, *ssa.Defer, *ssa.Send, *ssa.Select:
-					all = true
+					all = dbgAll(7)
 				}
 			}
 		}
@@ -1568,4 +1632,11 @@ func (e *Engine) setMapLen(st *State, m, n string) {
 
 func (e *Engine) mapLen(st *State, m string) string {
 	return fmt.Sprintf("(select %s %s)", e.mapLenTerm(st), m)
+}
+
+func dbgAll(site int) bool {
+	if os.Getenv("GOVC_DEBUG") != "" {
+		fmt.Fprintf(os.Stderr, "loopmod: everything havocked (site %d)\n", site)
+	}
+	return true
 }
